@@ -35,6 +35,10 @@ def eff_unit(row, units):
     return "Bq"
 
 
+def readout(inv, unit):
+    return inv.masses(unit) if unit == "g" else inv.activities(unit) if unit == "Bq" else inv.moles(unit)
+
+
 def correspondence(rep, ctx):
     rd = ctx.rd
     dd = rd.DEFAULTDATA
@@ -195,6 +199,43 @@ def correspondence(rep, ctx):
                     if not same:
                         fail(desc, f"{cname} {nm}: {b!r} vs direct build {a!r}")
                         break
+    # ---- the decay_data option: a file read with a NON-default dataset equals the inventory built directly on that dataset —
+    #      in contents AND in everything computed from it (masses, activities, decay use the dataset's own constants)
+    import synthetic
+    from oracle import DatasetView as _DV
+    for k_ in range(6 if thorough else 2):
+        ds, sch, spath = synthetic.build(rd, view, r, f"c12_{ctx.seed}_{k_}")
+        try:
+            sview = _DV(ds)
+            picks = [i for i in r.sample(range(sview.n), min(sview.n, 3)) if sview.rate[i] != 0] or [next(i for i in range(sview.n) if sview.rate[i] != 0)]
+            for cname in ("Inventory", "InventoryHP"):
+                C = getattr(rd, cname)
+                unit = r.choice(["g", "Bq", "mol"])
+                rows_ = [[sview.names[i], repr(float(r.randint(1, 10**6)) / 8)] for i in picks]
+                write(rows_)
+                desc = f"read_csv rows={rows_!r} units={unit!r} inventory_type={cname!r} decay_data=<synthetic dataset {sch['names'][:3]}…>"
+                rep.case(("decay_data-option", k_, cname, unit))
+                rep.dist("decay_data-option")
+                try:
+                    got = rd.read_csv(path, inventory_type=cname, units=unit, decay_data=ds)
+                    want = C({nm: float(q) for nm, q in rows_}, unit, True, ds)
+                    if type(got) is not C or got.decay_data is not ds or list(got.contents) != list(want.contents):
+                        fail(desc, f"class/dataset/nuclides differ from the direct build: {type(got).__name__}, {got.decay_data.dataset_name}, {list(got.contents)}")
+                        continue
+                    g = sview.index[rows_[0][0]]
+                    tsec = float(1 / sview.rate[g])
+                    for label, fa, fb in (("contents", lambda: got.numbers(), lambda: want.numbers()),
+                                          ("read-out in the file's unit", lambda: readout(got, unit), lambda: readout(want, unit)),
+                                          ("masses('g')", lambda: got.masses("g"), lambda: want.masses("g")),
+                                          ("decay(one half-life)", lambda: got.decay(tsec, "s").numbers(), lambda: want.decay(tsec, "s").numbers())):
+                        a_, b_ = fa(), fb()
+                        if list(a_) != list(b_) or any(abs(F(a_[n_]) - F(b_[n_])) > Fraction(1, 10**13) * abs(F(b_[n_])) for n_ in b_):
+                            fail(desc, f"{label}: {dict(list(a_.items())[:3])} vs direct build on that dataset {dict(list(b_.items())[:3])}")
+                            break
+                except Exception as e:  # noqa: BLE001
+                    fail(desc, f"raised {type(e).__name__}: {e}")
+        finally:
+            synthetic.cleanup(spath)
     # skipping everything / malformed rows are refused
     for lines, kw in (([["H-3", "1.0"]], {"skip_rows": 1}), ([["H-3"]], {}), ([["H-3", "1", "Bq", "x"]], {}), ([], {}),
                       ([["H-3", "abc"]], {}), ([["H-3", "1.0"]], {"inventory_type": "Foo"})):
